@@ -272,10 +272,14 @@ func step(dir string, n *node, o op) *node {
 
 func observe(d *store.Dir, m model, fail func(kind, format string, a ...any)) string {
 	var sb strings.Builder
-	all := append(append([]string{}, users...), "c")
+	// "c" never exists; "A"/"B" are case variants of existing names (a store must not fold case)
+	all := append(append([]string{}, users...), "c", "A", "B", "a ", "a.user")
 	for _, u := range all {
 		r, present := m[u]
 		ex, adm, err := d.Exists(u)
+		if u == "a " && err != nil {
+			err = nil // a name outside the grammar may be refused with an error (C03); it must not exist
+		}
 		if err != nil || ex != present || (present && adm != r.admin) {
 			fail("exists", "Exists(%s) = %v,%v,%v; model present=%v admin=%v", u, ex, adm, err, present, r.admin)
 		}
